@@ -796,9 +796,10 @@ Proof. intros H. unfold frac_or_0. now rewrite H. Qed.
 (* Ideal_Cyc gives back the cycle count when the ideal time is cycles / core *)
 Lemma Qtrunc_inject x n : x == inject_Z n -> Qtrunc x = n.
 Proof.
-  intros E. unfold Qtrunc. destruct (Qle_bool 0 x).
-  - rewrite (Qfloor_comp _ _ E). apply Qfloor_Z.
-  - rewrite (Qceiling_comp _ _ E). apply Qceiling_Z.
+  intros E. unfold Qtrunc, round_half_even.
+  rewrite (Qfloor_comp _ _ E), Qfloor_Z.
+  assert (H : Qlt_b (x - inject_Z n) (1 # 2) = true) by (apply Qlt_b_true; rewrite E; lra).
+  rewrite H. reflexivity.
 Qed.
 
 Lemma ideal_cyc_exact core ideal n :
